@@ -203,9 +203,11 @@ def consumers(tier, seed):
                 sc = dict(seed=seed * 31 + n, n=n, spectrum=sp, start="random", batch=[2] if (n % 2 == 0 or sp == "mixedrank") else [], ninit=1)
                 A, _, _, _ = build(sc)
                 A = A.to(torch.float32 if dt == "f32" else torch.float64).to(torch.float64)
-                for (q, rel) in (("root_decomposition", "RRt"), ("root_inv_decomposition", "RRtInv"), ("diagonalization", "eig")):
-                    if sp in ("rankdef", "mixedrank") and q == "root_inv_decomposition":
+                for (q, rel) in (("root_decomposition", "RRt"), ("root_inv_decomposition", "RRtInv"), ("diagonalization", "eig"), ("root_after_inv_vecs1", "RRt")):
+                    if sp in ("rankdef", "mixedrank") and q in ("root_inv_decomposition", "root_after_inv_vecs1"):
                         continue          # no inverse to compress
+                    if q == "root_after_inv_vecs1" and sp != "distinct":
+                        continue          # (a single start vector spans the whole space only for distinct eigenvalues: cf. the C12 finding family)
                     for mr in sorted({2, max(1, n // 2), n, n + 2}):
                         k += 1
                         t = dict(shape=list(A.shape), data=[float(x) for x in A.reshape(-1)])
